@@ -18,7 +18,7 @@ for p in sorted(glob.glob(os.path.join(ROOT, "seeded", "*", "meta.json"))):
     summ = re.sub(r"\s+", " ", m.get("summary") or "")[:170]
     files = ", ".join(f.replace("src/", "") for f in (m.get("files_changed") or []))
     rows.append(f"| {name} | {files} | {summ} | {chk.get('verdict','?')}: {first} | {also or '–'} | {silent or '–'} |")
-text = f"""Two hundred changes were produced in five rounds by fresh sub-agents (twenty agents per
+text = f"""Two hundred and forty changes were produced in six rounds by fresh sub-agents (twenty agents per
 round, two changes per property and round; from round 2 on each agent was told which
 ideas round 1 had used and asked for different functions, drivers and kinds of mistake), each given
 only the property text and its own scratch worktree of `/repo` — nothing from `/verif`.  Each change
@@ -26,8 +26,8 @@ compiles, passes the 57 existing tests, and comes with a demonstration that fail
 without it; all of that was re-confirmed by `tools/seed_eval.py` in a scratch worktree (build with and
 without the guard, suite, demonstration both ways) before the checks were run against it.  They are kept
 under `seeded/<id>/` (`patch.diff`, the demonstration, `meta.json` with what was run and the verdicts;
-ids `Cxx-1/2` = round 1, `Cxx-3/4` = round 2, `Cxx-5/6` = round 3, `Cxx-7/8` = round 4, `Cxx-9/10` = round 5; the agents of
-rounds 3 to 5 were additionally asked
+ids `Cxx-1/2` = round 1, `Cxx-3/4` = round 2, `Cxx-5/6` = round 3, `Cxx-7/8` = round 4, `Cxx-9/10` = round 5, `Cxx-11/12` = round 6; the agents of
+rounds 3 to 6 were additionally asked
 for changes that would slip past a differential test driven by mostly well-formed random sequences
 and a simple device model: single feature combinations or transports, behaviour after an error
 path, numeric boundaries, interleavings of two queues or of blocking and non-blocking calls, unusual
@@ -128,9 +128,31 @@ itself die with SIGSEGV, which at that time was reported without a failing input
 | C19-10 sound events parsed with `ref_from_bytes` (fails on unaligned buffers, silently) | the host allocator aligns byte buffers to 16 | the harness allocator hands out byte buffers (`align == 1`) at odd addresses |
 | C20-10 tear-down decided by `rect.is_some()` (model only) | sequencing complaints were dropped after a device error | oracle: detach/unref/attach only for a resource whose creation the device acknowledged |
 
-Check bugs that surfaced on the way: §9, 13–17.  All 200 are now reported with a
-concrete replay by the check of their own property; the 120 of rounds 1–3 were re-run after the
-comparison changes of §9.16 (`out/reeval.log`).  The last two
+Round 6 (asked in addition for changes whose effect depends on the execution environment — allocator
+alignment, addresses above 4 GiB, device maxima above the driver's sizes, in-place vs. bouncing
+platforms, short or long configuration spaces —, on long histories, or on recovery after an error),
+first pass: 27 of 40 concrete, 5 `no-failing-input-found`, 8 missed:
+
+| missed | why | added |
+|---|---|---|
+| C03-12 `add` gains a non-wrapping "ring full" guard (`avail_idx - last_used_idx`), which underflows once the available index has wrapped and a chain is still outstanding (model only: the debug build panics) | a panic of `add` with non-empty buffers ended the case silently | oracle: `add` must not panic under the caller contract |
+| C04-12 GPU tear-down releases the old framebuffer on a failing SET_SCANOUT / DETACH (model only in C04) | C04 looked at the GPU stream only for attach addresses | C04 keeps the stream's backing-lifetime oracles as well |
+| C05-11 `VirtQueue::new` silently drops EVENT_IDX on transports that require the legacy layout | the queue streams used modern-layout transports only | every other triple of live queues sits on a legacy-layout transport; `used_event` must be re-armed there too |
+| C06-11 legacy MMIO `queue_used` reads `QueueReady` | C06 did not look at the per-queue registers | C06 runs C10's session stream (registers of the other interface version must not be touched; "in use" is `QueuePFN ≠ 0` on legacy) |
+| C08-11 `RxBuffer::packet_mut` always skips 12 header bytes | only `packet()` was read | `packet_mut()` must be the frame `packet()` returns; C08 runs the net stream for the header-length clause |
+| C08-12 EDID helper functions send GET_EDID without the feature | only `get_edid` itself was exercised as a gated operation | the helpers are called when EDID was not negotiated: nothing may reach the queue |
+| C09-11 block driver declares its queue before its transport (model only: the regenerated `DropPlan` broke a theorem) | the model transport's `queue_unset` disables the queue, which hides the order | a second pass over every teardown with the `queue_unset` calls removed — PCI semantics, where only the reset at the transport's drop quiesces the device |
+| C14-12 modern MMIO `queue_set` writes the driver area's upper word into `QueueDeviceHigh` (known to C02/C04/C06 since round 4; model only in C14) | driver checks did not look at queue registration | every driver check runs its driver's rows of the MMIO construction stream with the registration oracles |
+| C15-12 console writes into its receive buffer after re-posting it (in-place platform, device that fills at once) | the device filled at the notification, the write happens between index store and notification | the console device may fill at the index store (store hook), in flag mode |
+| C16-11 `can_pop` compares with `>` | the net streams never reached 65 536 completions | `net-wrap`: 66 000 frames received and recycled; likewise `rng-wrap` for the command drivers |
+| C19-12 socket receive path panics on a packet shorter than its header says | C19 drove the socket queue below the socket driver | C19 runs C18's packet stream with the no-panic and posted-count oracles |
+| C02-12 console `Drop` leaves the transmit queue programmed | — | not strengthened: with the transports' reset at drop the device is quiesced before the memory goes (C09's oracles agree); the model transcript differs, so C02/C08/C09 report it without a failing input |
+| C07-11 `recycle_descriptors` no longer clears freed shadow descriptors | — | **rejected as a seed**: it only shows when a caller pops a token it no longer has outstanding, which the `unsafe fn pop_used` contract excludes (the unchanged code corrupts its free list and calls `unshare` with address 0 in the same situation) |
+
+Check bugs that surfaced on the way: §9, 13–19.  With the two exceptions named in the last table
+(C02-12, C07-11) all 240 are reported with a concrete replay by the check of their own property; the
+120 of rounds 1–3 were re-run after the comparison changes of §9.16 (one, C20-3, no longer applies: it
+edits lines that repair F15 rewrote).  The last two
 columns come from running further related checks against a change (`tools/seed_cross.py`, run for part
 of round 1 only); † = reported as `no-failing-input-found`.
 
